@@ -69,10 +69,16 @@ def project(case, evs):
             if not m:
                 continue
             f = m.group(1).split(",")
+            if f[0] in ("M", "SD"):
+                # the duration the script asks to sleep for right after this statement (0: none) - from the generated
+                # script, not from the VM: the requested wake-up time is what the property speaks of
+                body = case["desc"]["bodies"].get(f[1], [])
+                ins = body[int(f[2]) - 1] if 1 <= int(f[2]) <= len(body) else ["m"]
+                nap = ins[1] if ins[0] == "sl" else 0
             if f[0] == "M":
-                out.append({"e": "Ev", "id": e["id"], "t": "mark", "ctx": e["ctx"], "label": int(f[1]), "step": int(f[2]), "last": f[3] == "true"})
+                out.append({"e": "Ev", "id": e["id"], "t": "mark", "ctx": e["ctx"], "label": int(f[1]), "step": int(f[2]), "last": f[3] == "true", "clk": e.get("clk", 0), "nap": nap})
             elif f[0] == "SD":
-                out.append({"e": "Ev", "id": e["id"], "t": "mark", "ctx": e["ctx"], "label": int(f[1]), "step": int(f[2]), "last": f[3] == "true"})
+                out.append({"e": "Ev", "id": e["id"], "t": "mark", "ctx": e["ctx"], "label": int(f[1]), "step": int(f[2]), "last": f[3] == "true", "clk": e.get("clk", 0), "nap": nap})
                 out.append({"e": "Ev", "id": e["id"], "t": "sd", "ctx": e["ctx"], "target": int(f[4]), "val": f[5] == "true"})
             elif f[0] == "TD":
                 out.append({"e": "Ev", "id": e["id"], "t": "td", "target": int(f[2])})
@@ -116,6 +122,8 @@ def systematic(tier):
     # several sleepers with different wake-up times, scripts finishing meanwhile
     for d1, d2 in itertools.product((2, 6), (3, 9)):
         shapes.append(([1, 2, 3], {1: [M, ("sl", d1), M], 2: [("sl", d2), M, M], 3: [M]}))
+    # naps long enough that nothing but the wake-up time explains the delay (fractions of a second)
+    shapes.append(([1, 2], {1: [M, ("sl", 40), M, M], 2: [M, ("sl", 75), M]}))
     slices = (1, 2, 3) if tier == "quick" else (1, 2, 3, 4, 7)
     cases = []
     for n, (init, bodies) in enumerate(shapes):
